@@ -124,7 +124,7 @@ class GridDriver:
 
         tups = [tup(lambda: fn(cid, r, inc, tuple)), tup(lambda: fn(tuple(c), r, inc, tuple)),
                 tup(lambda: fn(pc(0.0), r, inc, tuple)), tup(lambda: fn(pc(0.25), r, inc, tuple)),
-                tup(lambda: fn(pc(0.75), r, inc, tuple)),
+                tup(lambda: fn(pc(0.75), r, inc, tuple)), tup(lambda: fn(pc(0.9999999), r, inc, tuple)),
                 tup(lambda: w.get_neighbours(cid, r, inc, tuple, kind)),
                 tup(lambda: w.get_neighbours(pc(0.5), r, inc, tuple, kind)),
                 tup(lambda: w.get_neighbours(tuple(c), radius=r, incl_center=inc, ret_type=tuple, mode=kind))]
@@ -150,6 +150,13 @@ class GridDriver:
             vals = [7 * (i + 1) + k for i in range(n)]
             gen = np.array(vals)
             self.sources[name] = gen
+        elif kind == "roarray":
+            # a read-only view of a buffer the caller keeps (and later changes through the writable base)
+            vals = [7 * (i + 1) + k for i in range(n)]
+            base = np.array(vals)
+            gen = base.view()
+            gen.flags.writeable = False
+            self.sources[name] = base
         elif kind == "lookup":
             # a table of the world's dimensionality
             if self.dims == 1:
@@ -158,7 +165,14 @@ class GridDriver:
                 table = [[100 * x + 10 * y + k for y in range(H)] for x in range(W)]
             else:
                 table = [[[100 * x + 10 * y + z + k for z in range(D)] for y in range(H)] for x in range(W)]
-            gen = LookupGenerator(table)
+            # the same generator object is re-used for every lookup component of this world; its table is replaced in between
+            if getattr(self, "lookup", None) is None:
+                self.lookup = LookupGenerator(table)
+            elif k % 2:
+                self.lookup.table = table
+            else:
+                self.lookup = LookupGenerator(table)
+            gen = self.lookup
         else:
             raise AssertionError(kind)
         exc = None
@@ -166,7 +180,7 @@ class GridDriver:
             w.add_cell_component(name, gen)
         except Exception as e:  # noqa: BLE001
             exc = e
-        self.events.append({"op": "add_cell_component", "name": name, "kind": kind, "k": k, "vals": vals, "dims": self.dims,
+        self.events.append({"op": "add_cell_component", "name": name, "kind": "array" if kind == "roarray" else kind, "k": k, "vals": vals, "dims": self.dims,
                             "out": outcome(exc), "cols": self.cols()})
 
     def op_mutate(self, name):
@@ -261,7 +275,7 @@ def c11_random_program(rng, max_ext=3, length=10):
     for _ in range(length):
         r = rng.random()
         if r < 0.55:
-            prog.append(["add", rng.choice(names), rng.choice(["callable", "constant", "list", "array", "lookup"]), rng.choice([0, 3, 5, -4])])
+            prog.append(["add", rng.choice(names), rng.choice(["callable", "constant", "list", "array", "roarray", "lookup", "lookup"]), rng.choice([0, 3, 5, -4])])
         elif r < 0.7:
             prog.append(["mutate", rng.choice(names)])
         elif r < 0.9:
@@ -278,7 +292,7 @@ def program_from_walk(walk, shape, cls):
     for name, args in walk:
         if name == "AddSrc":
             n, kind, k = args
-            prog.append(["add", n, ("list", "array")[len(prog) % 2] if kind == "list" else kind, k])
+            prog.append(["add", n, ("list", "array", "roarray")[len(prog) % 3] if kind == "list" else kind, k])
         elif name == "AddCellComponent":
             n, d = args
             if d["kind"] == "list":
